@@ -1,15 +1,18 @@
 package main
 
 import (
+	"context"
 	"encoding/hex"
 	"encoding/json"
 	"errors"
 	"fmt"
 	"math/rand"
 	"os"
+	"os/exec"
 	"sort"
 	"strconv"
 	"strings"
+	"time"
 	"unicode/utf8"
 
 	"github.com/siglens/siglens/pkg/config"
@@ -257,6 +260,9 @@ func execKV(line string) Result {
 		}
 		ops = append(ops, op)
 	}
+	if f[1] == "dash" && os.Getenv("VERIF_KV_CHILD") == "" && kvDashRisky(f[2:]) {
+		return kvExecInChild(line)
+	}
 	dir, err := kvFreshDir()
 	if err != nil {
 		return Result{Out: "harness-error:" + err.Error()}
@@ -312,6 +318,69 @@ func execKV(line string) Result {
 		if kvUnusual(op.k) || kvUnusual(op.k2) {
 			res.Tags = append(res.Tags, "unusual-name")
 			break
+		}
+	}
+	return res
+}
+
+// kvDashRisky: the line moves something through the dashboard-update API (u…@pid). updateDashboard has no
+// circular-reference check; when the id is a folder the request can spin forever in buildFolderPath. Such
+// lines run in a child process that is killed after a timeout.
+func kvDashRisky(toks []string) bool {
+	for _, t := range toks {
+		if strings.HasPrefix(t, "u") && strings.Contains(t, "@") {
+			return true
+		}
+	}
+	return false
+}
+
+const kvChildTimeout = 8 * time.Second
+
+func kvExecInChild(line string) Result {
+	dir, err := kvFreshDir()
+	if err != nil {
+		return Result{Out: "harness-error:" + err.Error()}
+	}
+	defer os.RemoveAll(dir)
+	opsf := dir + "kv.ops"
+	if err := os.WriteFile(opsf, []byte(line+"\n"), 0o644); err != nil {
+		return Result{Out: "harness-error:" + err.Error()}
+	}
+	ctx, cancel := context.WithTimeout(context.Background(), kvChildTimeout)
+	defer cancel()
+	cmd := exec.CommandContext(ctx, os.Args[0], "exec", "kv", opsf, dir)
+	cmd.Env = append(os.Environ(), "VERIF_KV_CHILD=1", "TMPDIR="+dir)
+	out, err := cmd.CombinedOutput()
+	if ctx.Err() != nil {
+		return Result{Out: "hang", Nontrivial: true, Tags: []string{"store=dash", "hang"},
+			Fails: []PropFail{{Sig: "kv/dash/request-hangs", Msg: "the operation sequence did not finish within 8 s in a child process (killed): a request spins forever"}}}
+	}
+	if err != nil {
+		return Result{Out: "harness-error:child:" + err.Error() + ":" + trunc(string(out), 300)}
+	}
+	impl, err1 := os.ReadFile(dir + "kv.impl")
+	st, err2 := os.ReadFile(dir + "kv.stats")
+	if err1 != nil || err2 != nil {
+		return Result{Out: "harness-error:child-output"}
+	}
+	res := Result{Out: strings.TrimRight(string(impl), "\n")}
+	var stats struct {
+		Distinct int            `json:"distinct_nontrivial"`
+		Tags     map[string]int `json:"tags"`
+	}
+	if json.Unmarshal(st, &stats) == nil {
+		res.Nontrivial = stats.Distinct > 0
+		for t := range stats.Tags {
+			res.Tags = append(res.Tags, t)
+		}
+	}
+	if pf, err := os.ReadFile(dir + "kv.prop"); err == nil {
+		for _, l := range strings.Split(string(pf), "\n") {
+			var d struct{ Sig, Msg string }
+			if strings.TrimSpace(l) != "" && json.Unmarshal([]byte(l), &d) == nil {
+				res.Fails = append(res.Fails, PropFail{Sig: d.Sig, Msg: d.Msg})
+			}
 		}
 	}
 	return res
@@ -1186,8 +1255,10 @@ func (s *kvDash) apply(op kvOp) string {
 		if err != nil {
 			return kvDashErr(err)
 		}
-		if ow := s.owner(op.id); ow >= 0 && !s.shadow[ow][op.id].folder {
-			s.shadow[ow][op.id].fav = !s.shadow[ow][op.id].fav // the audit then shows whose read changed
+		// a keyed store lets a tenant toggle only its OWN dashboard; if another tenant's flag flips, the audit
+		// of that tenant reports it
+		if o := sh[op.id]; o != nil && !o.folder {
+			o.fav = !o.fav
 		}
 		if fav {
 			return "1"
@@ -1349,7 +1420,11 @@ func genDashLine(r *rand.Rand) string {
 			if id == 0 {
 				id = 1
 			}
-			ops = append(ops, fmt.Sprintf("u%d.%d=%s:%s%s", t, id, name, kvHex(kvPick(r, kvVals)), []string{"", "", at()}[r.Intn(3)]))
+			mv := []string{"", "", at()}[r.Intn(3)]
+			if mv != "" && id < len(objs) && objs[id].folder && r.Intn(12) != 0 {
+				mv = "" // moving a FOLDER id through the dashboard API can hang the request (see kvDashRisky): keep it rare
+			}
+			ops = append(ops, fmt.Sprintf("u%d.%d=%s:%s%s", t, id, name, kvHex(kvPick(r, kvVals)), mv))
 		case x < 56:
 			nm := name
 			if r.Intn(3) == 0 {
